@@ -12,7 +12,7 @@ recognised atom with the wrong sign / factor / index is a violation.
 """
 from ..model import AnalysisError
 from ..terms import T, walk_terms
-from ..walk import call_parts, call_arg, is_call_to, const_val, NOVAL, strip_views, is_conj, same_value, unwrap_gamma
+from ..walk import call_parts, call_arg, is_call_to, const_val, NOVAL, strip_views, is_conj, same_value, unwrap_gamma, norm_stmt
 from ..lin import linearise, peel, product_factors
 from .. import ein
 
@@ -359,7 +359,16 @@ def check_watson(ck):
         run.check(ok, 'R-DEP', 'ComplexWatson.log_norm: normaliser of the stored concentration and feature dimension', fn.loc(), '',
                   'log_norm does not evaluate the 1F1 normaliser at (self.concentration, self.mode.shape[-1])', construct=f'R-DEP::{q}::arguments')
     else:
-        run.unresolved('R-DEP', 'ComplexWatson.log_norm', fn.loc(), 'does not call log_norm_1f1')
+        inner = [x for x in walk_terms(ret, into_mu=False) if x.op == 'call' and (call_parts(x)[0] or '').endswith('log_norm_1f1')]
+        if inner:
+            # the exact normaliser is still called, but what is returned is something else built around it (np.where with a closed-form
+            # approximation on part of the domain, a correction term ...): exp(log_pdf) no longer integrates to one there, and the M-step,
+            # which inverts the exact normaliser, no longer maximises the model's own likelihood
+            run.violation('R-DEP', 'ComplexWatson.log_norm: the returned value is the exact 1F1 normaliser', fn.loc(ret.node),
+                          f'`{norm_stmt(ret.node)[:100]}`: log_norm returns an expression that only contains the 1F1 normaliser; on part of the parameter domain another formula is used',
+                          construct=f'R-DEP::{q}::exact-normaliser')
+        else:
+            run.unresolved('R-DEP', 'ComplexWatson.log_norm', fn.loc(), 'does not call log_norm_1f1')
     q = D + 'complex_watson::ComplexWatson.log_norm_1f1'
     g = ck.graph(q)
     fn = A.prog.func(q)
